@@ -66,11 +66,12 @@ type HistOpts struct {
 // Hist drives a generated history over a world. It is shared by the
 // store-level properties; each property adds its own oracle on top.
 type Hist struct {
-	W      *World
-	T      *rapid.T
-	C      *vstats.Case
-	Opt    HistOpts
-	Failed map[*Obj]bool
+	UploadsDuringSlicing, RotationsDuringSlicing, OverlappedFindMissing int
+	W                                                                   *World
+	T                                                                   *rapid.T
+	C                                                                   *vstats.Case
+	Opt                                                                 HistOpts
+	Failed                                                              map[*Obj]bool
 	// Counters for non-triviality rules.
 	FailedKeysRead       int
 	HeldAcrossRotation   int
@@ -348,8 +349,43 @@ func (h *Hist) Actions() map[string]func(*rapid.T) {
 				cuts = append(cuts, prev)
 			}
 			want := rapid.IntRange(0, ncuts).Draw(t, "want")
-			c.Add("composite", o.ID, inst, fmt.Sprint(cuts), want)
-			w.GetFromComposite(o, inst, cuts, want)
+			// Other clients' uploads that complete while the slicer runs
+			// (the unlocked slicing phase of the call).
+			nDuring := 0
+			if rapid.IntRange(0, 2).Draw(t, "uploadsDuringSlicing") == 0 {
+				nDuring = rapid.IntRange(1, 4).Draw(t, "nDuring")
+			}
+			c.Add("composite", o.ID, inst, fmt.Sprint(cuts), want, nDuring)
+			var during func()
+			if nDuring > 0 {
+				during = func() {
+					rot := w.St.BL.PopFronts
+					for i := 0; i < nDuring; i++ {
+						w.FinishPut(h.NewUpload())
+					}
+					h.UploadsDuringSlicing++
+					if w.St.BL.PopFronts != rot {
+						h.RotationsDuringSlicing++
+					}
+				}
+			}
+			if nDuring > 0 && rapid.IntRange(0, 2).Draw(t, "fmOverlapped") == 0 {
+				// A second client's FindMissing overlaps: first scan, wait
+				// for the refresh lock while the uploads complete, then the
+				// refreshing scan.
+				k := rapid.IntRange(1, 4).Draw(t, "fmK")
+				var items []ObjInst
+				for i := 0; i < k; i++ {
+					fo := PickObj(t, w, "fmObj")
+					items = append(items, ObjInst{Obj: fo, Instance: rapid.SampledFrom(InstanceNames).Draw(t, "fmInst")})
+					c.Add("fmo", fo.ID)
+				}
+				if _, _, ov := w.OverlappedFindMissing(o, inst, items, during); ov {
+					h.OverlappedFindMissing++
+				}
+			} else {
+				w.GetFromCompositeDuring(o, inst, cuts, want, during)
+			}
 			if h.Failed[o] {
 				h.FailedKeysRead++
 			}
